@@ -50,6 +50,15 @@ impl C01 {
     }
 }
 
+const FIRST_LINES: &[&str] = &["osu file format v", "osu file format v14", "osu file format v\u{e9}", "OSU FILE FORMAT V14", "osu file format v9 v", "osu file format", "[General]", "// c", "osu file format v-2147483648", "osu file format v 5 "];
+
+/// (special character or nothing) x first-line variant x (special character or nothing): 24 x 10 x 24 first lines, each
+/// in front of a small file
+fn first_line_count() -> u64 {
+    let n = crate::corpus::SPECIAL_CHARS.len() as u64 + 1;
+    n * FIRST_LINES.len() as u64 * n
+}
+
 fn short_count() -> u64 {
     (0..=4u32).map(|l| (crate::corpus::SHORT_ALPHABET.len() as u64).pow(l)).sum::<u64>() * 2
 }
@@ -86,6 +95,7 @@ impl Scenario for C01 {
     fn total_runs(&self, tier: Tier) -> u64 {
         self.trunc(tier).last().copied().unwrap_or(0)
             + short_count()
+            + first_line_count()
             + match tier {
                 Tier::Quick => 180_000,
                 Tier::Thorough => 6_000_000,
@@ -141,6 +151,19 @@ impl Scenario for C01 {
             }
             return p;
         }
+        if idx < ntr + short_count() + first_line_count() {
+            let mut k = idx - ntr - short_count();
+            let n = crate::corpus::SPECIAL_CHARS.len() as u64 + 1;
+            let pre = k % n;
+            k /= n;
+            let fl = FIRST_LINES[(k % FIRST_LINES.len() as u64) as usize];
+            k /= FIRST_LINES.len() as u64;
+            let suf = k % n;
+            let ch = |i: u64| if i == 0 { "" } else { crate::corpus::SPECIAL_CHARS[(i - 1) as usize] };
+            let mut p = Plan::new("C01", "first-line", seed, idx);
+            p.data = format!("{}{fl}{}\n[General]\nMode: 3\n[Metadata]\nTitle:t\n[HitObjects]\n1,2,3,1,0\n", ch(pre), ch(suf)).into_bytes();
+            return p;
+        }
         let mut rng = Rng::for_run(seed, "C01", idx);
         let mut p = Plan::new("C01", "storage-faults", seed, idx);
         match rng.below(20) {
@@ -152,6 +175,24 @@ impl Scenario for C01 {
                     let b = rng.pick(&ENCS).bom();
                     p.data[..b.len()].copy_from_slice(b);
                 }
+            }
+            6 if rng.chance(1, 3) => {
+                // pathological repetition: a very long run of one short line kind in front of (or inside) a small file —
+                // recursion per line, quadratic buffers and per-line allocations show up here
+                p.scen = "repetition".into();
+                let n = *rng.pick(&[1_000usize, 20_000, 50_000, 120_000, 400_000]);
+                let unit = *rng.pick(&["\n", " \n", "\r\n", "//\n", "// c\n", "[General]\n", "[HitObjects]\n", "x\n", "\t\n", "osu file format v\n", "1,1,1,1,0\n", "0,0\n"]);
+                let mut t = String::with_capacity(n * unit.len() + 200);
+                if rng.chance(1, 3) {
+                    t.push_str("osu file format v14\n[General]\nMode: 1\n[HitObjects]\n");
+                }
+                for _ in 0..n {
+                    t.push_str(unit);
+                }
+                t.push_str("osu file format v7\n[Metadata]\nTitle:t\n[HitObjects]\n10,10,10,1,0\n");
+                let enc = if rng.chance(1, 4) { *rng.pick(&ENCS) } else { Enc::Utf8 };
+                p.data = encode_text(&t, enc);
+                p.set("decs", if n > 20_000 { 0b1_0000_0001 } else { 0x1FF });
             }
             3 | 4 | 5 => {
                 // grammar-generated file made of sliders with hostile geometry (workload generation, not a fault)
@@ -226,10 +267,12 @@ impl Scenario for C01 {
         st.inc(match plan.scen.as_str() {
             "trunc-sweep" => "family.fault-derived.truncation-sweep",
             "short-prefix" => "family.exhaustive-short-prefixes",
+            "first-line" => "family.exhaustive-first-line-variants",
             "noise-uniform" => "family.workload-only.uniform-noise",
             "noise-dictionary" => "family.workload-only.dictionary-noise",
             "generated+faults" => "family.grammar-generated(+faults)",
             "hostile-geometry" => "family.workload-only.hostile-slider-geometry",
+            "repetition" => "family.workload-only.pathological-repetition",
             _ => "family.fault-derived.bundled-map-mutations",
         });
         for f in &plan.faults {
@@ -246,6 +289,7 @@ impl Scenario for C01 {
                 "L3-duplicate" => "fired.L3-record-duplicated",
                 "L4-reorder" => "fired.L4-records-reordered",
                 "L5-noise" => "fired.L5-noise-record",
+                "L6-special-char" => "fired.L6-special-character-inserted",
                 "S7-foreign-magic-prefix" => "fired.S7-foreign-magic-prefix",
                 _ => "fired.other",
             });
@@ -327,7 +371,7 @@ impl Scenario for C01 {
         Ok(())
     }
     fn nontrivial(&self, plan: &Plan) -> bool {
-        !plan.faults.is_empty() || plan.scen.starts_with("noise") || plan.scen == "hostile-geometry" || (plan.scen == "short-prefix" && plan.data.len() >= 2)
+        !plan.faults.is_empty() || plan.scen.starts_with("noise") || plan.scen == "hostile-geometry" || plan.scen == "repetition" || (plan.scen == "short-prefix" && plan.data.len() >= 2) || plan.scen == "first-line"
     }
     fn reach_probes(&self) -> Vec<&'static str> {
         vec![
